@@ -307,7 +307,7 @@ zgstrf (superlu_options_t *options, SuperMatrix *A,
 	    /* Determine the union of the row structure of the snode */
 	    if ( (*info = zsnode_dfs(jcol, kcol, asub, xa_begin, xa_end,
 				    xprune, marker, Glu)) != 0 )
-		return;
+		goto nomem_exit;
 
             nextu    = xusub[jcol];
 	    nextlu   = xlusup[jcol];
@@ -317,7 +317,7 @@ zgstrf (superlu_options_t *options, SuperMatrix *A,
 	    nzlumax = Glu->nzlumax;
 	    while ( new_next > nzlumax ) {
 		if ( (*info = zLUMemXpand(jcol, nextlu, LUSUP, &nzlumax, Glu)) )
-		    return;
+		    goto nomem_exit;
 	    }
     
 	    for (icol = jcol; icol<= kcol; icol++) {
@@ -373,17 +373,17 @@ zgstrf (superlu_options_t *options, SuperMatrix *A,
 
 	    	if ((*info = zcolumn_dfs(m, jj, perm_r, &nseg, &panel_lsub[k],
 					segrep, &repfnz[k], xprune, marker,
-					parent, xplore, Glu)) != 0) return;
+					parent, xplore, Glu)) != 0) goto nomem_exit;
 
 	      	/* Numeric updates */
 	    	if ((*info = zcolumn_bmod(jj, (nseg - nseg1), &dense[k],
 					 tempv, &segrep[nseg1], &repfnz[k],
-					 jcol, Glu, stat)) != 0) return;
+					 jcol, Glu, stat)) != 0) goto nomem_exit;
 		
 	        /* Copy the U-segments to ucol[*] */
 		if ((*info = zcopy_to_ucol(jj, nseg, segrep, &repfnz[k],
 					  perm_r, &dense[k], Glu)) != 0)
-		    return;
+		    goto nomem_exit;
 
 	    	if ( (*info = zpivotL(jj, diag_pivot_thresh, &usepr, perm_r,
 				      iperm_r, iperm_c, &pivrow, Glu, stat)) )
@@ -462,6 +462,38 @@ zgstrf (superlu_options_t *options, SuperMatrix *A,
     ops[FACT] += ops[TRSV] + ops[GEMV];	
     stat->expansions = --(Glu->num_expansions);
     
+    if ( iperm_r_allocated ) SUPERLU_FREE (iperm_r);
+    SUPERLU_FREE (iperm_c);
+    SUPERLU_FREE (relax_end);
+
+    return;
+
+nomem_exit:
+    /* A storage expansion failed (*info > ncol): L and U are not created;
+       release everything this call holds. */
+    if ( Glu->MemModel == SYSTEM ) {
+	if ( fact == SamePattern_SameRowPerm ) {
+	    /* The arrays belong to the caller's L and U; expansions that
+	       succeeded before the failure may have moved them. */
+	    ((SCformat *)L->Store)->nzval = (doublecomplex *) Glu->lusup;
+	    ((SCformat *)L->Store)->rowind = Glu->lsub;
+	    ((NCformat *)U->Store)->nzval = (doublecomplex *) Glu->ucol;
+	    ((NCformat *)U->Store)->rowind = Glu->usub;
+	} else {
+	    SUPERLU_FREE (Glu->lusup);
+	    SUPERLU_FREE (Glu->ucol);
+	    SUPERLU_FREE (Glu->lsub);
+	    SUPERLU_FREE (Glu->usub);
+	    SUPERLU_FREE (Glu->xsup);
+	    SUPERLU_FREE (Glu->supno);
+	    SUPERLU_FREE (Glu->xlsub);
+	    SUPERLU_FREE (Glu->xlusup);
+	    SUPERLU_FREE (Glu->xusub);
+	}
+    }
+    zLUWorkFree(iwork, zwork, Glu);
+    SUPERLU_FREE (xplore);
+    SUPERLU_FREE (xprune);
     if ( iperm_r_allocated ) SUPERLU_FREE (iperm_r);
     SUPERLU_FREE (iperm_c);
     SUPERLU_FREE (relax_end);
